@@ -13,6 +13,20 @@ pub struct Droppy(pub *mut i64);
 impl Droppy { pub fn new(v: i64) -> Self { Droppy(Box::into_raw(Box::new(v))) } pub fn val(&self) -> i64 { unsafe { *self.0 } } }
 impl Drop for Droppy { fn drop(&mut self) { let v = self.val(); unsafe { drop(Box::from_raw(self.0)); } DROPS.with(|d| d.borrow_mut().push(v)); } }
 
+/// an element type whose size (12) is not a multiple of its alignment (4)... i.e. size != alignment: slices of it start at addresses that are not multiples of the size
+#[repr(C)]
+#[derive(Clone, Copy, Debug, PartialEq)]
+pub struct Rgb3 { pub r: u32, pub g: u32, pub b: u32 }
+fn digest3(v: &[Rgb3]) -> i64 { v.iter().fold(29i64, |a, x| (a * 131 + x.r as i64 * 7 + x.g as i64 * 3 + x.b as i64) % 1_000_000_007) }
+
+/// a user error type with integer codes of its own (any non-zero i32, negative and wide ones included)
+#[derive(Debug, PartialEq)]
+pub struct DevErr(pub i32);
+impl cglue::result::IntError for DevErr {
+    fn into_int_err(self) -> core::num::NonZeroI32 { core::num::NonZeroI32::new(self.0).expect("DevErr codes are non-zero") }
+    fn from_int_err(err: core::num::NonZeroI32) -> Self { DevErr(err.get()) }
+}
+
 #[cglue_trait]
 #[int_result]
 pub trait ShapesRef {
@@ -29,6 +43,10 @@ pub trait ShapesRef {
     #[no_int_result]
     fn res_c(&self, x: i32) -> Result<u32, u8>;
     fn res_io(&self, x: i32) -> Result<u64, std::io::Error>;
+    /// integer results WITHOUT a success payload (no output slot) and with a user error type whose codes are arbitrary non-zero i32s
+    fn res_iu(&self, x: i32) -> Result<(), std::io::Error>;
+    fn res_du(&self, x: i32) -> Result<(), DevErr>;
+    fn res_dv(&self, x: i32) -> Result<u32, DevErr>;
     fn res_drop(&self, x: i32) -> Result<Droppy, ()>;
     fn ext(&self, x: i64) -> i64;
     /// default bodies (overridden by the implementor, with and without explicit lifetime generics) and one that is NOT overridden
@@ -48,13 +66,17 @@ pub trait ShapesMut {
     fn st(&mut self, s: &str) -> usize;
     fn it(&mut self, it: CIterator<u32>) -> u64;
     fn rsm(&mut self) -> &mut [u8];
+    /// mutable slices of 12-byte elements, as argument and as result
+    fn slm3(&mut self, v: &mut [Rgb3]) -> usize;
+    fn rsm3(&mut self, w: usize) -> &mut [Rgb3];
+    fn rgb_digest(&self) -> i64;
     fn rs2(&self) -> &[u8];
     fn res_e(&mut self, x: i32) -> Result<(), ()>;
 }
 
-pub struct Obj { pub id: i64, pub state: i64, pub buf: Vec<u8>, pub s: String, pub cell: u32 }
+pub struct Obj { pub id: i64, pub state: i64, pub buf: Vec<u8>, pub s: String, pub cell: u32, pub rgbw: Vec<u32> }
 impl Obj {
-    pub fn new(id: i64) -> Self { LIVE.fetch_add(1, SeqCst); Obj { id, state: id * 7 + 1, buf: vec![1, 2, 3, id as u8], s: format!("o{}é\0z", id), cell: 40 + id as u32 } }
+    pub fn new(id: i64) -> Self { LIVE.fetch_add(1, SeqCst); Obj { id, state: id * 7 + 1, buf: vec![1, 2, 3, id as u8], s: format!("o{}é\0z", id), cell: 40 + id as u32, rgbw: (0..21u32).map(|i| i * 11 + 5).collect() } }
 }
 impl Drop for Obj { fn drop(&mut self) { LIVE.fetch_sub(1, SeqCst); DROPS.with(|d| d.borrow_mut().push(-1000 - self.id)); } }
 
@@ -85,6 +107,9 @@ impl ShapesRef for Obj {
     fn rstr(&self) -> &str { log_call(vec![self.id, 14]); &self.s }
     fn res(&self, x: i32) -> Result<u64, ()> { log_call(vec![self.id, 16, x as i64]); if x < 0 { Err(()) } else { Ok(x as u64 * 2) } }
     fn res_c(&self, x: i32) -> Result<u32, u8> { log_call(vec![self.id, 18, x as i64]); if x >= 0 { Ok(x as u32) } else { Err(x.wrapping_neg() as u8) } }
+    fn res_iu(&self, x: i32) -> Result<(), std::io::Error> { log_call(vec![self.id, 26, x as i64]); if x == 0 { Ok(()) } else if x == 1 { Err(std::io::Error::new(std::io::ErrorKind::Other, "no code")) } else { Err(std::io::Error::from_raw_os_error(x)) } }
+    fn res_du(&self, x: i32) -> Result<(), DevErr> { log_call(vec![self.id, 27, x as i64]); if x == 0 { Ok(()) } else { Err(DevErr(x)) } }
+    fn res_dv(&self, x: i32) -> Result<u32, DevErr> { log_call(vec![self.id, 28, x as i64]); if x % 2 == 0 { Ok((x as u32).wrapping_mul(3)) } else { Err(DevErr(x)) } }
     fn res_io(&self, x: i32) -> Result<u64, std::io::Error> { log_call(vec![self.id, 19, x as i64]); if x == 0 { Ok(99) } else if x == 1 { Err(std::io::Error::new(std::io::ErrorKind::Other, "no code")) } else { Err(std::io::Error::from_raw_os_error(x)) } }
     fn res_drop(&self, x: i32) -> Result<Droppy, ()> { log_call(vec![self.id, 20, x as i64]); if x >= 0 { Ok(Droppy::new(x as i64)) } else { Err(()) } }
     fn ext(&self, x: i64) -> i64 { log_call(vec![self.id, 21, x]); x }
@@ -101,6 +126,10 @@ impl ShapesMut for Obj {
     fn st(&mut self, s: &str) -> usize { log_call(vec![self.id, 5, s.as_ptr() as i64, s.len() as i64, digest(s.as_bytes())]); self.s = s.to_string(); s.chars().count() }
     fn it(&mut self, it: CIterator<u32>) -> u64 { let v: Vec<u32> = it.collect(); log_call(vec![self.id, 11, v.len() as i64]); v.iter().map(|x| *x as u64).sum() }
     fn rsm(&mut self) -> &mut [u8] { log_call(vec![self.id, 15]); &mut self.buf }
+    fn slm3(&mut self, v: &mut [Rgb3]) -> usize { log_call(vec![self.id, 29, v.as_ptr() as i64, v.len() as i64, digest3(v)]); for x in v.iter_mut() { x.g = x.g.wrapping_add(1000); x.b ^= 0xff; } v.len() }
+    /// a view of 5 elements into the object's own word buffer, starting at word w (0..=2): its address is base + 4w
+    fn rsm3(&mut self, w: usize) -> &mut [Rgb3] { log_call(vec![self.id, 30, w as i64]); let w = w % 3; unsafe { std::slice::from_raw_parts_mut(self.rgbw.as_mut_ptr().add(w) as *mut Rgb3, 5) } }
+    fn rgb_digest(&self) -> i64 { self.rgbw.iter().fold(31i64, |a, x| (a * 257 + *x as i64) % 1_000_000_007) }
     fn res_e(&mut self, x: i32) -> Result<(), ()> { log_call(vec![self.id, 17, x as i64]); self.state += 1; if x % 2 == 0 { Ok(()) } else { Err(()) } }
     fn rs2(&self) -> &[u8] { log_call(vec![self.id, 13]); &self.buf }
 }
@@ -133,6 +162,9 @@ fn call_ref<T: ShapesRef>(t: &mut T, op: &[i64], scratch: &mut Scratch) -> Vec<i
         16 => vec![16, match t.res(a(1) as i32) { Ok(v) => v as i64, Err(()) => -1 }],
         18 => vec![18, match t.res_c(a(1) as i32) { Ok(v) => v as i64, Err(e) => -(e as i64) }],
         19 => vec![19, match t.res_io(a(1) as i32) { Ok(v) => v as i64, Err(e) => -(e.raw_os_error().filter(|c| *c != 0).unwrap_or(0xffff) as i64) - 1_000_000 /* errors without an OS code are documented to become 0xffff */ }],
+        26 => vec![26, match t.res_iu(a(1) as i32) { Ok(()) => 0, Err(e) => -(e.raw_os_error().filter(|c| *c != 0).unwrap_or(0xffff) as i64) - 1_000_000 }],
+        27 => vec![27, match t.res_du(a(1) as i32) { Ok(()) => 0, Err(e) => e.0 as i64 }],
+        28 => vec![28, match t.res_dv(a(1) as i32) { Ok(v) => v as i64 + (1 << 40), Err(e) => e.0 as i64 }],
         20 => { let r = t.res_drop(a(1) as i32); let row = vec![20, match &r { Ok(d) => d.val(), Err(()) => -1 }]; drop(r); row }
         22 => { let v = a(1) as u32; let r = t.dflt(&v); vec![22, *r as i64, (r as *const u32 == &v as *const u32) as i64] }
         23 => vec![23, t.dflt2(a(1))],
@@ -166,6 +198,29 @@ fn call_mut<T: ShapesMut>(t: &mut T, op: &[i64], scratch: &mut Scratch) -> Vec<i
         }
         15 => { let r = t.rsm(); if !r.is_empty() { r[0] = r[0].wrapping_add(5); } let d = digest(r); let again = digest(t.rs2()); vec![15, d, again] }
         17 => vec![17, t.res_e(a(1) as i32).is_ok() as i64],
+        29 => {     // '29 w n': a &mut [Rgb3] argument of n (<= 8) elements starting at word w (0..=2) of the caller's buffer; the callee's writes must be visible
+            let (w, n) = ((a(1) as usize) % 3, (a(2) as usize).min(8));
+            let base = scratch.rgbw.as_ptr() as i64;
+            let v = unsafe { std::slice::from_raw_parts_mut(scratch.rgbw.as_mut_ptr().add(w) as *mut Rgb3, n) };
+            let before = digest3(v);
+            let r = t.slm3(v);
+            rel_last(base, false);
+            let mut want: Vec<Rgb3> = (0..n).map(|i| { let k = (w + 3 * i) as u32; Rgb3 { r: k * 13 + 1, g: (k + 1) * 13 + 1, b: (k + 2) * 13 + 1 } }).collect();
+            if n > 0 && before != digest3(&want) { /* an earlier op 29 wrote here already: only relative checks below */ } else {
+                for x in want.iter_mut() { x.g = x.g.wrapping_add(1000); x.b ^= 0xff; }
+                let now = unsafe { std::slice::from_raw_parts(scratch.rgbw.as_ptr().add(w) as *const Rgb3, n) };
+                if now != &want[..] { expect_fail(format!("&mut [12-byte elements] argument at word offset {} ({} elements): the callee's writes are not visible to the caller", w, n)); }
+            }
+            vec![29, r as i64, scratch.rgbw.iter().fold(31i64, |a, x| (a * 257 + *x as i64) % 1_000_000_007)]
+        }
+        30 => {     // '30 w': a &mut [Rgb3] RESULT (5 elements at word w of the object's buffer); the caller's writes must reach the object
+            let w = (a(1) as usize) % 3;
+            let r = t.rsm3(w);
+            let (len, d0) = (r.len(), digest3(r));
+            if len != 5 { expect_fail(format!("&mut [12-byte elements] result at word offset {}: {} elements arrived instead of 5", w, len)); }
+            for x in r.iter_mut() { x.r = x.r.wrapping_add(7); }
+            vec![30, len as i64, d0, t.rgb_digest()]
+        }
         _ => vec![-1],
     }
 }
@@ -201,8 +256,8 @@ fn expect_fail(s: String) { let d = crate::alloc::domain(0); EXPECT.with(|e| e.b
 /// the implementation logged an absolute address: rewrite it as an offset from the caller's buffer
 fn rel_last(base: i64, nonnull_only: bool) { LOG.with(|l| { if let Some(e) = l.borrow_mut().last_mut() { if e.len() > 2 && !(nonnull_only && e[2] == 0) { e[2] -= base; } } }); }
 
-pub struct Scratch { bytes: Vec<u8>, words: Vec<u64>, strings: Vec<String> }
-impl Scratch { fn new() -> Self { Scratch { bytes: (0..24u8).collect(), words: (0..9u64).map(|i| i * i + 1).collect(), strings: vec!["".into(), "a".into(), "héllo".into(), "€😀".into(), "plain ascii text".into(), "ab\0cd".into(), "\0".into(), "tail\0".into(), "\u{fffd}x\u{10ffff}".into()] } } }
+pub struct Scratch { bytes: Vec<u8>, words: Vec<u64>, strings: Vec<String>, rgbw: Vec<u32> }
+impl Scratch { fn new() -> Self { Scratch { rgbw: (0..27u32).map(|i| i * 13 + 1).collect(), bytes: (0..24u8).collect(), words: (0..9u64).map(|i| i * i + 1).collect(), strings: vec!["".into(), "a".into(), "héllo".into(), "€😀".into(), "plain ascii text".into(), "ab\0cd".into(), "\0".into(), "tail\0".into(), "\u{fffd}x\u{10ffff}".into()] } } }
 
 fn final_state(o: &Obj) -> Vec<i64> { vec![o.state, digest(&o.buf), digest(o.s.as_bytes()), o.cell as i64] }
 
